@@ -97,6 +97,7 @@ def _run_isosteric(case, ctx):
     order = list(range(nT))
     r.shuffle(order)
     sat = GM.saturation(name, base)
+    gas = "n-butane" if case["seed"] % 2 else "methane"  # (butane is subcritical over the whole range: relative pressure exists)
     isos = []
     for T in Ts:
         P = _family_params(name, r, T, dH, Tref)(base)
@@ -106,11 +107,11 @@ def _run_isosteric(case, ctx):
             w = GM.pressure_window(name, P, max_cov=0.97)
             ps = numpy.exp(numpy.linspace(math.log(w[1] * 1e-6), math.log(w[1]), 400))
             ls = numpy.asarray(m.loading(ps), dtype=float)
-            isos.append(pygaps.PointIsotherm(pressure=list(ps), loading=list(ls), branch="ads", material="verif-c19", adsorbate="methane", temperature=Tst, **units))
+            isos.append(pygaps.PointIsotherm(pressure=list(ps), loading=list(ls), branch="ads", material="verif-c19", adsorbate=gas, temperature=Tst, **units))
         else:
             w = GM.pressure_window(name, P, max_cov=0.9)
             m = GM.make_model(name, P, pressure_range=(w[1] * 1e-3, w[1]), loading_range=(sat * 0.01, sat * 0.9))
-            isos.append(pygaps.ModelIsotherm(model=m, material="verif-c19", adsorbate="methane", temperature=Tst, **units))
+            isos.append(pygaps.ModelIsotherm(model=m, material="verif-c19", adsorbate=gas, temperature=Tst, **units))
     isos = [isos[i] for i in order]
     explicit = r.random() < 0.6
     if explicit:
@@ -137,6 +138,23 @@ def _run_isosteric(case, ctx):
         ctx.violation("isosteric_enthalpy/value/%s" % kind, "the returned isosteric enthalpy is not the enthalpy built into the data", model=name, dH=dH / 1000, got=got[:6], Ts=Ts, order=order, units=units, loading=res[1]["loading"][:6] if hasattr(res[1]["loading"], "__len__") else None)
     if explicit and not numpy.allclose(numpy.asarray(res[1]["loading"], dtype=float), lp):
         ctx.violation("isosteric_enthalpy/loading-points", "the requested loading points were not used", got=res[1]["loading"], expected=lp)
+    # the same (already analysed) isotherm objects, converted in place to another common pressure unit, analysed again
+    if explicit:
+        to = r.choice([u for u in ("bar", "kPa", "Pa", "torr") if u != units["pressure_unit"]] + (["relative", "relative%"] * 2 if gas == "n-butane" else []))
+        try:
+            for iso in isos:
+                if hasattr(iso, "convert_pressure"):
+                    iso.convert_pressure(**({"mode_to": to} if to.startswith("relative") else {"unit_to": to}))
+            res2 = _call(isosteric_enthalpy, isos, loading_points=lp) if hasattr(isos[0], "convert_pressure") else None
+        except Exception as exc:
+            res2 = ("exc", exc)
+        if res2 is not None:
+            ctx.case(["isosteric-after-in-place-conversion", dg, to])
+            ctx.count("isosteric", "%s/after-in-place-conversion" % kind)
+            got2 = numpy.asarray(res2[1]["isosteric_enthalpy"], dtype=float) if res2[0] == "ok" else None
+            if got2 is None or got2.shape != got.shape or not numpy.allclose(got2, got, rtol=1e-6):
+                ctx.violation("isosteric_enthalpy/changes-after-in-place-conversion/%s" % kind, "the enthalpy changes (or the analysis raises) after the analysed isotherms were converted to another pressure unit in place",
+                              first=got[:4], second=(got2[:4] if got2 is not None else repr(res2[1])[:200]), unit_from=units["pressure_unit"], unit_to=to)
     if r.random() < 0.05:
         ctx.sample({"model": name, "dH_kJ": dH / 1000, "Ts": Ts, "order": order, "units": units, "as_points": case["as_points"], "returned": got[:3]})
 
@@ -223,6 +241,39 @@ def _run_whittaker(case, ctx):
         ctx.violation("enthalpy_sorption_whittaker/value", "the enthalpy differs from the closed form lambda + dH_vap + RT", model=name, ads=ads, T=T, P=P, n=got_n[bad], got=got_h[bad], expected=exp_h[bad])
     if res[1].get("model_params") != iso.model.params:
         ctx.violation("enthalpy_sorption_whittaker/model_params", "returned model parameters are not the isotherm's")
+    # ---- the same description as measured points: the function fits the named model itself (any accepted spelling of the name)
+    if case["seed"] % 2 == 0:
+        spelling = r.choice([name, name.lower(), name.upper()])
+        ps = numpy.exp(numpy.linspace(math.log(p_sat * 1e-5), math.log(p_sat * 0.98), 60))
+        ls = numpy.asarray(m.loading(ps), dtype=float)
+        piso = pygaps.PointIsotherm(pressure=list(ps), loading=list(ls), branch="ads", material="verif-c19w", adsorbate=ads, temperature=T, **units)
+        grid = [x for x in loading if x and x < float(ls.max()) * 0.95][:8]
+        if len(grid) >= 2:
+            rp = _call(enthalpy_sorption_whittaker, piso, model=spelling, loading=grid)
+            ctx.case(["whittaker-points", dg, spelling])
+            ctx.count("whittaker", "points/%s" % ("canonical-name" if spelling == name else "other-spelling"))
+            if rp[0] != "ok":
+                ctx.count("refusals", "whittaker-points/" + type(rp[1]).__name__)
+            else:
+                fp = rp[1].get("model_params") or {}
+                Kf, nmf, tf = fp.get("K"), fp.get("n_m"), fp.get("t", 1.0)
+                hs, ns = [], []
+                for n in grid:
+                    th = n / nmf
+                    if not 0 < th < 1:
+                        continue
+                    p = (n / (nmf * Kf)) / (1 - th**tf)**(1 / tf)
+                    if not math.isfinite(p) or p < 0 or p > min(p_sat, p_c) * (1 - 1e-6):
+                        continue
+                    pv = max(p, p_t)
+                    hv = PropsSI("Hmolar", "P", pv, "Q", 1, backend) - PropsSI("Hmolar", "P", pv, "Q", 0, backend)
+                    ns.append(n)
+                    hs.append((R_GAS * T * math.log(p_sat * Kf * (th**tf / (1 - th**tf))**((tf - 1) / tf)) + hv + R_GAS * T) / 1000)
+                gn, gh = list(map(float, rp[1]["loading"])), list(map(float, rp[1]["enthalpy_sorption"]))
+                if len(gn) == len(ns) and numpy.allclose(gn, ns, rtol=1e-12) and not numpy.allclose(gh, hs, rtol=1e-6):
+                    bad = int(numpy.argmax(numpy.abs(numpy.array(gh) - numpy.array(hs))))
+                    ctx.violation("enthalpy_sorption_whittaker/value-for-fitted-description", "the enthalpy is not the closed form evaluated with the parameters the function reports to have fitted", model=spelling,
+                                  fitted=fp, n=gn[bad], got=gh[bad], expected=hs[bad])
 
 
 def _run_initial(case, ctx):
